@@ -31,7 +31,7 @@ var Checks = map[string]CheckSpec{
 	"C04": {Property: "C04", Level: "exploration", Profiles: []string{"book", "fixed", "book", "general"}, QuickS: 50, ThoroughS: 600},
 	"C05": {Property: "C05", Level: "exploration", Profiles: []string{"book", "fixed", "rounds", "general"}, QuickS: 45, ThoroughS: 600},
 	"C06": {Property: "C06", Level: "exploration", Profiles: []string{"fixed", "fixed", "general"}, QuickS: 45, ThoroughS: 600},
-	"C07": {Property: "C07", Level: "fault_enumeration", Profiles: []string{"general", "idle", "extreme", "clock", "book"}, Opts: ExecOpts{BankFailEnum: true, MaxEnumBlocks: 60}, QuickS: 60, ThoroughS: 900},
+	"C07": {Property: "C07", Level: "fault_enumeration", Profiles: []string{"general", "idle", "extreme", "clock", "book"}, Opts: ExecOpts{BankFailEnum: true, MaxEnumBlocks: 5}, QuickS: 60, ThoroughS: 900},
 	"C08": {Property: "C08", Level: "exploration", Profiles: []string{"clock", "general", "rounds"}, QuickS: 45, ThoroughS: 600},
 	"C09": {Property: "C09", Level: "exploration", Profiles: []string{"vesting", "clock", "general"}, QuickS: 45, ThoroughS: 600},
 	"C10": {Property: "C10", Level: "exploration", Profiles: []string{"general", "messages"}, QuickS: 40, ThoroughS: 300},
@@ -123,7 +123,7 @@ func mergeStats(dst, src *Stats) {
 	dst.TxAnte += src.TxAnte
 	dst.PreOps += src.PreOps
 	dst.PreOK += src.PreOK
-	dst.SimTimeNs += src.SimTimeNs
+	dst.SimDays += src.SimDays
 	dst.QueryChecks += src.QueryChecks
 	dst.TraceChecks += src.TraceChecks
 	for k, v := range src.Faults {
@@ -439,6 +439,15 @@ func envInt(name string, def int64) int64 {
 	return def
 }
 
+// SpecFor: the check specification adjusted for the tier.
+func SpecFor(prop, tier string) CheckSpec {
+	spec := Checks[prop]
+	if tier == "thorough" && spec.Opts.BankFailEnum {
+		spec.Opts.MaxEnumBlocks = 40
+	}
+	return spec
+}
+
 // RunCheck fans out workers (this binary, "worker" sub-command), merges their
 // reports, shrinks and writes replay files, prints VIOLATION / KNOWN-FINDING
 // lines, writes evidence. Returns the process exit code.
@@ -457,6 +466,7 @@ func RunCheck(self string, prop, tier, verifDir string) int {
 	workers := int(envInt("VERIF_WORKERS", 16))
 	start := time.Now()
 	fmt.Printf("check %s tier=%s VERIF_SEED=%d workers=%d budget=%ds\n", prop, tier, seed, workers, budgetS)
+	spec = SpecFor(prop, tier)
 	if spec.Custom != "" {
 		return runCustom(spec, tier, seed, verifDir, start)
 	}
@@ -473,7 +483,7 @@ func RunCheck(self string, prop, tier, verifDir string) int {
 	var procs []proc
 	for w := 0; w < workers; w++ {
 		out := filepath.Join(tmp, fmt.Sprintf("w%d.json", w))
-		cmd := exec.Command(self, "worker", "--prop", prop, "--seed", fmt.Sprint(seed), "--worker", fmt.Sprint(w), "--budget-s", fmt.Sprint(budgetS), "--out", out)
+		cmd := exec.Command(self, "worker", "--prop", prop, "--seed", fmt.Sprint(seed), "--worker", fmt.Sprint(w), "--budget-s", fmt.Sprint(budgetS), "--tier", tier, "--out", out)
 		cmd.Env = append(os.Environ(), "GOMAXPROCS=2")
 		cmd.Stderr = os.Stderr
 		if err := cmd.Start(); err != nil {
@@ -562,7 +572,11 @@ func reportAndEvidence(spec CheckSpec, tier string, seed int64, verifDir string,
 		nViol++
 		path := ""
 		if f.Schedule != nil {
-			sh, tries := Shrink(f.Schedule, spec.Opts, f.V.Property, f.V.Rule, f.V.Key, 60*time.Second)
+			budget := 25 * time.Second
+			if nViol > 3 {
+				budget = 0 // only the first classes are minimised; the rest are written as found
+			}
+			sh, tries := Shrink(f.Schedule, spec.Opts, f.V.Property, f.V.Rule, f.V.Key, budget)
 			r := Execute(sh, spec.Opts)
 			detail := f.V.Detail
 			if v := hasClass(r, f.V.Property, f.V.Rule, f.V.Key); v != nil {
@@ -580,7 +594,7 @@ func reportAndEvidence(spec CheckSpec, tier string, seed int64, verifDir string,
 	writeEvidence(spec, tier, seed, verifDir, total, wall, nViol, len(knownPrinted), extra)
 	st := total.Stats
 	fmt.Printf("%s: runs=%d nontrivial=%d distinct_signatures=%d blocks=%d txs=%d (ok=%d rejected=%d ante=%d) states=%d sim_time=%.1f days wall=%.1fs violations=%d known=%d\n",
-		spec.Property, total.Runs, total.NonTrivial, len(total.Sigs), st.Blocks, st.Txs, st.TxOK, st.TxRejected, st.TxAnte, len(st.States), float64(st.SimTimeNs)/86400e9, wall, nViol, len(knownPrinted))
+		spec.Property, total.Runs, total.NonTrivial, len(total.Sigs), st.Blocks, st.Txs, st.TxOK, st.TxRejected, st.TxAnte, len(st.States), st.SimDays, wall, nViol, len(knownPrinted))
 	return exit
 }
 
@@ -616,7 +630,7 @@ func writeEvidence(spec CheckSpec, tier string, seed int64, verifDir string, tot
 		"blocks":              st.Blocks,
 		"txs":                 map[string]int{"total": st.Txs, "accepted": st.TxOK, "rejected_by_message": st.TxRejected, "rejected_by_ante": st.TxAnte},
 		"keeper_ops":          map[string]int{"total": st.PreOps, "accepted": st.PreOK},
-		"simulated_days":      float64(st.SimTimeNs) / 86400e9,
+		"simulated_days":      st.SimDays,
 		"faults_fired":        st.Faults,
 		"faults_configured":   st.FaultsCfg,
 		"probes":              st.Probes,
